@@ -186,6 +186,8 @@ pub proof fn lemma_extra_step(v0: DbView, va: DbView, vb: DbView, i: u16, r0: Se
 }
 
 // ---- delete_items_from_trees ----------------------------------------------------------------------------------------------
+/// C15: no node of `s` is an oversized bucket
+pub open spec fn no_big(m: TM, s: Set<u32>, cap: u64) -> bool { forall|x: u32| #![trigger s.contains(x)] s.contains(x) ==> !over_cap(m[x], cap) }
 /// facts about the j-th tree after its root was processed (new root `nr`), in the staged state `t`
 pub open spec fn dift_done(m0: TM, root0: u32, nr: u32, t: TmpV, d: Set<u32>, cap: u64) -> bool {
     let s = tnodes(m0, tn(root0)); let m1 = apply(m0, t);
@@ -193,6 +195,7 @@ pub open spec fn dift_done(m0: TM, root0: u32, nr: u32, t: TmpV, d: Set<u32>, ca
     &&& tree(m1, tn(nr)) && titems(m1, tn(nr)) == titems(m0, tn(root0)).difference(d) && tnodes(m1, tn(nr)).subset_of(s)
     &&& (forall|x: u32| #![trigger s.contains(x)] s.contains(x) && !tnodes(m1, tn(nr)).contains(x) ==> t.deleted.contains(x))
     &&& (titems(m0, tn(root0)).difference(d).len() <= cap ==> m1[nr] is Desc)
+    &&& no_big(m0, s, cap) ==> no_big(m1, tnodes(m1, tn(nr)), cap)
 }
 pub open spec fn in_some_tree(m0: TM, r0: Seq<u32>, k: int, x: u32) -> bool { exists|j: int| 0 <= j < k && tnodes(m0, tn(#[trigger] r0[j])).contains(x) }
 pub open spec fn dift_inv(m0: TM, r0: Seq<u32>, rk: Seq<u32>, k: int, t: TmpV, d: Set<u32>, cap: u64) -> bool {
@@ -252,7 +255,9 @@ pub open spec fn dift_post(v0: DbView, v1: DbView, i: u16, r0: Seq<u32>, r1: Seq
     // every new tree is what is left of one old tree: same items minus the deleted ids, nodes among the old ones
     &&& (exists|p: Seq<int>| #![trigger is_perm(p, r0.len() as int)] is_perm(p, r0.len() as int) && forall|k: int| 0 <= k < r1.len() ==>
             titems(m1, tn(#[trigger] r1[k])) == titems(m0, tn(r0[p[k]])).difference(d) && tnodes(m1, tn(r1[k])).subset_of(tnodes(m0, tn(r0[p[k]])))
-            && (titems(m0, tn(r0[p[k]])).difference(d).len() <= cap ==> m1[r1[k]] is Desc))
+            && (titems(m0, tn(r0[p[k]])).difference(d).len() <= cap ==> m1[r1[k]] is Desc)
+            // C15: deleting never creates an oversized bucket
+            && (no_big(m0, tnodes(m0, tn(r0[p[k]])), cap) ==> no_big(m1, tnodes(m1, tn(r1[k])), cap)))
     // no orphan: a node of an old tree that still exists belongs to a new tree; nodes outside the old trees are untouched
     &&& (forall|x: u32| #![trigger m1.contains_key(x)] m1.contains_key(x) ==> m0.contains_key(x)
             && (in_some_tree(m0, r0, r0.len() as int, x) ==> in_some_tree(m1, r1, r1.len() as int, x))
@@ -275,7 +280,8 @@ pub proof fn lemma_dift_finish(v0: DbView, v1: DbView, i: u16, r0: Seq<u32>, rk:
     }
     assert forall|k: int| 0 <= k < r1.len() implies
             titems(m1, tn(#[trigger] r1[k])) == titems(m0, tn(r0[p[k]])).difference(d) && tnodes(m1, tn(r1[k])).subset_of(tnodes(m0, tn(r0[p[k]])))
-            && (titems(m0, tn(r0[p[k]])).difference(d).len() <= cap ==> m1[r1[k]] is Desc) by { assert(dift_done(m0, r0[p[k]], rk[p[k]], t, d, cap)); }
+            && (titems(m0, tn(r0[p[k]])).difference(d).len() <= cap ==> m1[r1[k]] is Desc)
+            && (no_big(m0, tnodes(m0, tn(r0[p[k]])), cap) ==> no_big(m1, tnodes(m1, tn(r1[k])), cap)) by { assert(dift_done(m0, r0[p[k]], rk[p[k]], t, d, cap)); }
     // surjectivity of p, to find the new tree of an old tree
     assert forall|x: u32| #![trigger m1.contains_key(x)] m1.contains_key(x) implies m0.contains_key(x)
             && (in_some_tree(m0, r0, n, x) ==> in_some_tree(m1, r1, n, x)) && (!in_some_tree(m0, r0, n, x) ==> m1[x] == m0[x]) by {
